@@ -47,7 +47,7 @@ from psyclone.psyir.backend.fortran import FortranWriter
 from psyclone.psyir.backend.visitor import PSyIRVisitor, VisitorError
 from psyclone.psyir.nodes import (Routine, Schedule, Reference, Node, Literal,
                                   CodeBlock, BinaryOperation, Assignment,
-                                  IfBlock, IntrinsicCall, Call)
+                                  IfBlock, IntrinsicCall, Call, Operation)
 from psyclone.psyir.symbols import ArgumentInterface
 from psyclone.psyir.tools.call_tree_utils import CallTreeUtils
 
@@ -340,6 +340,10 @@ class AdjointVisitor(PSyIRVisitor):
             fortran_writer = FortranWriter()
             hi_str = fortran_writer(node.stop_expr)
             lo_str = fortran_writer(node.start_expr)
+            if isinstance(node.start_expr, Operation):
+                # The lower bound is subtracted from the upper bound so
+                # it must be bracketed if it is itself an expression.
+                lo_str = f"({lo_str})"
             step_str = fortran_writer(node.step_expr)
             # TODO: use language independent PSyIR, see issue #1345
             ptree = Fortran2003.Intrinsic_Function_Reference(
